@@ -177,7 +177,12 @@ class Kernel:
                     m = re.search(r'(_result)?(\.[A-Za-z0-9]+)$', rel)
                     if m:
                         ext = m.group(0)
-                    kind = re.sub(r'[-_]?[0-9a-fA-F-]{8,}.*$', '', os.path.basename(rel))
+                    # only well-known fixed prefixes are kept: everything else in a temporary name may be random (mkdtemp,
+                    # uuid, hash of a path)
+                    bn = os.path.basename(rel)
+                    kind = next((pfx for pfx in ('geophires-input-params', 'geophires-result', 'hip-ra-params', 'hip-ra-result',
+                                                 'geophires_monte_carlo', 'MC_', 'parse_me', 'parse_prev', 'replay')
+                                 if bn.startswith(pfx)), '')
                     tok = f'tmp/{kind}#{len(self.path_tokens)}{ext}'
                     self.path_tokens[rel] = tok
                 return tok
